@@ -5,6 +5,7 @@ import (
 	"os"
 	"path/filepath"
 	"strings"
+	"sync"
 
 	"verifsim/core"
 )
@@ -145,4 +146,53 @@ func genTreeEnv(r *core.Rng, dir string) (*TreeEnv, []string) {
 	}
 	remote = append(remote, "/nowhere/else/file.go")
 	return ex, remote
+}
+
+// ---- a static tree for the stream properties ----------------------------------
+
+var (
+	staticOnce   sync.Once
+	staticGOROOT string
+	staticGOPATH string
+)
+
+// StaticTree returns a local GOROOT and GOPATH in which the source paths of
+// gen.Generate's frames resolve (runtime and net/http in the GOROOT,
+// github.com/foo/bar in the GOPATH, github.com/x/y@v1.2.3 in its module
+// cache). The content is fixed; the directory is named after it, created on
+// first use (files written under a temporary name and renamed) and shared by
+// all processes.
+func StaticTree() (string, []string) {
+	staticOnce.Do(func() {
+		base := os.Getenv("VERIF_TMP")
+		if base == "" {
+			base = os.TempDir()
+		}
+		dir := filepath.Join(base, "verif-tree-static-"+core.Hash([]byte(goSrc))[:10])
+		staticGOROOT, staticGOPATH = dir+"/goroot", dir+"/gopath"
+		names := []string{"main.go", "proc.go", "server.go", "asm_amd64.s", "cgo.c", "z_test.go", "sema.go"}
+		for _, d := range []string{staticGOROOT + "/src/runtime", staticGOROOT + "/src/net/http", staticGOPATH + "/src/github.com/foo/bar", staticGOPATH + "/pkg/mod/github.com/x/y@v1.2.3"} {
+			if err := os.MkdirAll(d, 0o755); err != nil {
+				panic(err)
+			}
+			for _, n := range names {
+				p := d + "/" + n
+				if _, err := os.Stat(p); err == nil {
+					continue
+				}
+				content := goSrc
+				if !strings.HasSuffix(n, ".go") {
+					content = "// not Go\n"
+				}
+				tmp := fmt.Sprintf("%s.%d.tmp", p, os.Getpid())
+				if err := os.WriteFile(tmp, []byte(content), 0o644); err != nil {
+					panic(err)
+				}
+				if err := os.Rename(tmp, p); err != nil {
+					panic(err)
+				}
+			}
+		}
+	})
+	return staticGOROOT, []string{staticGOPATH}
 }
